@@ -7,6 +7,7 @@ import EvyV.Driver.ExprDrv
 import EvyV.Driver.EvalDrv
 import EvyV.Driver.EnvDrv
 import EvyV.Driver.SvgDrv
+import EvyV.Driver.TyDrv
 import EvyV.Gen.Shapes
 /-
 Line protocol driver (core-only, compiled as `lean_exe evyv`).
@@ -59,6 +60,7 @@ def handle (line : String) : String :=
   | "envsplit" :: rest => EnvDrv.handleSplit rest
   | "verifychoice" :: rest => EnvDrv.handleVerify rest
   | "svg" :: rest => SvgDrv.handle rest
+  | "ty" :: rest => TyDrv.handle rest
   | _ => "ERR unknown request"
 
 partial def loop (hin hout : IO.FS.Stream) : IO Unit := do
